@@ -3198,15 +3198,17 @@ class Circuit(Unitary, StateVectorMap, Collection[Operation]):
         circuit.append_circuit(self, list(range(self.num_qudits)))
         return circuit
 
-    def __iadd__(self, rhs: Circuit) -> None:
-        """Return a concatenated circuit copy."""
+    def __iadd__(self, rhs: Circuit) -> Circuit:
+        """Concatenate `rhs` onto this circuit and return it."""
         self.append_circuit(rhs, list(range(self.num_qudits)))
+        return self
 
-    def __imul__(self, rhs: int) -> None:
-        """Return a repeated circuit copy."""
+    def __imul__(self, rhs: int) -> Circuit:
+        """Repeat this circuit `rhs` times in place and return it."""
         circuit = self.copy()
         for x in range(rhs - 1):
             self.append_circuit(circuit, list(range(self.num_qudits)))
+        return self
 
     # endregion
 
